@@ -94,7 +94,7 @@ func shrink(c *Case, key string, seed uint64) *Case {
 			return false
 		}
 		o := judge(cand, seed, nil)
-		if o.Skip == "" && hasKey(o, key) {
+		if hasKey(o, key) {
 			cur = cand
 			return true
 		}
@@ -226,6 +226,9 @@ func (x *runner) runWorld(lc *local, seed uint64, conc bool) {
 	w.runConcurrent(x, "readers-only", 4, 10, 0)
 	w.runConcurrent(x, "rule-updates", 4, 14, 10)
 	w.runConcurrent(x, "store-label-updates", 4, 14, 10)
+	for i := 0; i < 3; i++ {
+		w.runParkedWriter(x, 3)
+	}
 	// and the long-lived objects once more, sequentially, after the concurrent updates
 	for ri := range w.regions {
 		w.fit(x, lc, ri, "history_fit", ":only-with-long-lived-objects")
@@ -328,9 +331,18 @@ func (x *runner) handle(lc *local, j job) {
 	if o.Skip != "" {
 		lc.count("skipped_ambiguous", 1)
 		lc.count("skipped_ambiguous:"+o.Skip, 1)
-		return
+		if o.partOnly {
+			lc.count("skipped_but_checked_for_panic_and_partition", 1)
+		}
+		if len(o.Findings) == 0 {
+			return
+		}
+	} else {
+		lc.count("judged", 1)
 	}
-	lc.count("judged", 1)
+	if o.jsonRules {
+		lc.count("cases_rule_objects_decoded_from_json", 1)
+	}
 	if strings.HasSuffix(c.Origin, "+hazard") {
 		lc.count("judged_with_hazard_that_does_not_matter", 1)
 	}
@@ -524,6 +536,9 @@ func main() {
 		}
 	}
 	if r.Shard == 0 {
+		oneFieldGrid(func(idx int, c *Case) {
+			x.jobs <- job{c: c, tag: "directed_rules_differing_in_one_field", idx: idx, seed: uint64(idx)*5 + uint64(idx%2)} // every other one JSON-decoded
+		})
 		caseVariantGrid(func(idx int, c *Case) {
 			x.jobs <- job{c: c, tag: "directed_case_variants", idx: idx, seed: uint64(idx)*40503 + 9}
 		})
